@@ -364,6 +364,18 @@ def run_cat(case, r, rng):
                 else:
                     r.true('concatenate:self-unchanged', unchanged(A2, sA))
                 r.true('concatenate:other-unchanged', unchanged(B, sB))
+    # aliased operand: a train concatenated with ITSELF (the object, and its own core list), with and without overwrite
+    if A.ranks[0] == A.ranks[-1]:
+        want_self = np.tensordot(sites_dense(A.cores), sites_dense(A.cores), axes=([d1 + 1], [0]))
+        dims_self = [tuple(s_) for s_ in case['s1'] + case['s1']]
+        for form in ('tt', 'list'):
+            for ow in (False, True):
+                A2 = A.copy()
+                with r.op('concatenate:self:%s:call' % form):
+                    T = A2.concatenate(A2 if form == 'tt' else A2.cores, overwrite=ow)
+                    check_result(r, 'concatenate:self:%s%s' % (form, ':ow' if ow else ''), T, want_self, dims_self)
+                    if not ow:
+                        r.true('concatenate:self:self-unchanged', unchanged(A2, sA))
     # a REJECTED in-place call (incompatible ranks, documented ValueError) must leave the object as it was, and usable
     bad_first = [np.concatenate([B.cores[0], B.cores[0]], axis=0)] + [c.copy() for c in B.cores[1:]]          # left rank doubled: does not fit
     bad_inner = [c.copy() for c in B.cores] + [np.ones((B.cores[-1].shape[3] + 1, 2, 1, 1))]                  # inconsistent inside the list
